@@ -15,6 +15,7 @@ import sys, os, ast
 sys.path.insert(0, os.path.dirname(os.path.abspath(__file__)))
 from common import *
 
+OUTPUTS = ['ServerFacts.v']
 SRC = 'nbdime/webapp/nbdimeserver.py'
 HANDLERS = {'MainHandler': 'HMain', 'MainDiffHandler': 'HMainDiff', 'MainDifftoolHandler': 'HMainDifftool',
             'MainMergeHandler': 'HMainMerge', 'MainMergetoolHandler': 'HMainMergetool', 'ApiDiffHandler': 'HApiDiff',
